@@ -16,6 +16,8 @@ fn main() {
     std::panic::set_hook(Box::new(|_| {}));
     match args[1].as_str() {
         "dim" => dim::main(),
+        "dim-env" => dim::main_env(),
+        "dim-run" => dim::main_run(),
         "html" => html::main(),
         "list" => list::main(),
         "prefix" => prefix::main(),
